@@ -456,6 +456,19 @@ def gen_unusual(tier: str, rng: random.Random) -> Iterator[Dict[str, Any]]:
                 apps={"1": build.simple_resp_program(chunks=[2], read_first=False)[:-1] + [["return"]]})
     sc["bodies"] = {"1": [1, 70000], "2": [2, 3000]}
     yield sc
+    # an upload in more DATA frames than the application queue holds, to an endpoint that answers without reading
+    # it (an early 401 / 413) - the frames arrive while the request is still in progress; then a sibling is used
+    for nframes, ends in ((15, "return"), (15, "recv_disc"), (4, "return")):
+        mid = [build.h2_headers(1, 3, "POST", toks=[["/early", "/early"]], end=False, total=nframes * 100)]
+        for i in range(nframes):
+            mid.append({"s": "h2", "op": "data", "stream": 3, "pat": [1, i * 100, 100], "end": i == nframes - 1})
+        mid += [{"s": "dt", "d": 0.05}, {"s": "go", "app": "1", "n": 1}, {"s": "dt", "d": 0.05},
+                build.h2_headers(2, 5, "GET", toks=[["/after", "/after"]]), {"s": "dt", "d": 0.05}]
+        early = [["gate"]] + build.simple_resp_program(chunks=[2], read_first=False)[:-1] + [[ends]]
+        sc = script(mid, "upload-unread-when-answered/%d-frames/%s" % (nframes, ends), apps={"1": early},
+                    unusual="upload-unread-when-answered" if nframes > 10 else "short-upload-unread-when-answered")
+        sc["bodies"] = {"1": [1, nframes * 100]}
+        yield sc
     # frames for a stream whose response has completed while the client's side is still open
     for frame in ("wupd", "rst", "prio", "wupd-then-data", "trailers"):
         mid = [build.h2_headers(1, 3, "POST", toks=[["/half", "/half"]], end=False, total=5),
